@@ -984,7 +984,10 @@ def judge(c, impl, model):
     if k == 'roundtrip':
         o = impl['out']
         ok = o[0] == 'ok' and enc_value(o[1]) == enc_value(c['x'])
-        return True, ok, '' if ok else f'convert_value(str(x), type(x)) does not give x back: {o}'
+        # oracle hypotheses of C14_convert_inverts_str_float (repr of a float: stripped, lower-case, float(repr(x)) == x)
+        hyp = c['x'][0] != 'float' or (impl.get('norm_same') is True and enc_float(impl.get('float_back')) == enc_float(c['x'][1]))
+        return hyp, ok, ('' if hyp else 'float(repr(x)) round trip / normal form of repr(x) differs from what the theorem assumes') if ok \
+            else f'convert_value(str(x), type(x)) does not give x back: {o}'
     if k == 'validate' and c.get('nomodel'):
         o = impl['out']
         c['_obs'] = 'accepted' if o[0] == 'ok' else 'rejected' if is_exc(o, VEXC) else 'leak:' + o[2]
@@ -1228,7 +1231,8 @@ def run(tier, seed, replay=None):
         'further validator, and the specification makes no claim there (outside-domain)',
         "CPython's int<->str digit limit (4300) is part of the model: str(int), int(str), and the messages of the rejections, which are "
         "f-strings over the value / the bound evaluated before the exception is raised (finding C14-K9 is inside the model)",
-        'the float str() round trip (shortest repr) is decided by correspondence only (stream roundtrip), not by a theorem',
+        'the float str() round trip: C14_convert_inverts_str_float is stated under the oracle hypotheses "repr(x) is stripped and lower-case and '
+        'float(repr(x)) == x"; the stream roundtrip checks these hypotheses and the round trip itself against CPython for every float it draws',
         'Python `re` decides membership in the regular language of the pattern (checked per case against the derivative matcher, '
         'which is proved to decide the language: C14_regex_matcher_correct)',
         'whitespace: str.strip()/isspace()/\\s and the (smaller) set int()/float() skip are compared with CPython over all code points on every run']
